@@ -11,6 +11,7 @@ import os
 import shutil
 import subprocess
 import sys
+import tempfile
 import time
 
 import tlc as tlcmod
@@ -141,6 +142,31 @@ class Check:
         shutil.rmtree(r.scratch, ignore_errors=True)
         return r
 
+    def tlaps(self, subdir, module, deps=(), timeout=600):
+        """Check the proofs of spec/<subdir>/<module>.tla with the TLA+ proof system (unbounded-parameter safety of a P spec).
+        A failed obligation is an error of the specification (exit 2), never a violation; a missing tlapm is recorded and skipped."""
+        import re
+        if not shutil.which("tlapm"):
+            self.notes.append("tlapm not installed: proofs of %s not re-checked" % module)
+            return None
+        d = tempfile.mkdtemp(prefix="tlaps-", dir=self.work)
+        for f in (module,) + tuple(deps):
+            shutil.copy(os.path.join(VERIF, "spec", subdir, f + ".tla"), d)
+        t0 = time.time()
+        try:
+            p = subprocess.run(["tlapm", "--threads", "8", "--cleanfp", module + ".tla"], cwd=d, capture_output=True, text=True, timeout=timeout)
+        except subprocess.TimeoutExpired:
+            self.fatal("tlapm timed out on %s" % module)
+        out = p.stdout + p.stderr
+        m = re.search(r"All (\d+) obligations? proved", out)
+        rec = {"spec": "%s/%s" % (subdir, module), "tool": "tlapm", "wall_s": round(time.time() - t0, 1), "obligations_proved": int(m.group(1)) if m else 0}
+        self.cov["tlc_runs"].append(rec)
+        shutil.rmtree(d, ignore_errors=True)
+        if not m:
+            self.fatal("tlapm did not prove %s: %s" % (module, out[-600:]))
+        self.log("tlapm %s: %s obligations proved in %.1fs" % (module, m.group(1), rec["wall_s"]))
+        return rec
+
     def validate(self, subdir, module, cfg, trace_path, *, shards=None, lib_dirs=None, timeout=1800, extra_dirs=()):
         """Validate a (concatenated) trace file against a T spec.  Returns the list of rejected events
         [{t, i, l, ev, trace: [events...]}].  Traces are split into shards validated by parallel TLC processes."""
@@ -241,7 +267,18 @@ class Check:
             json.dump({"property": self.pid, "sig": sig, "what": what, "tier": self.tier, "seed": self.seed, **replay_obj}, f, indent=1)
         self.violations[sig] = {"what": what, "replay": rp, "count": 1}
 
+    def beyond(self, sig, what, obj):
+        """A disagreement between the code and a GROWTH specification (behaviour outside the listed property's statement):
+        recorded in the evidence and printed as a NOTE, never a VIOLATION of the property this check decides."""
+        b = self.cov.setdefault("beyond_property", {})
+        if sig in b:
+            b[sig]["count"] += 1
+        else:
+            b[sig] = {"what": what, "count": 1, **obj}
+
     def finish(self, level="model_checking"):
+        for s, v in self.cov.get("beyond_property", {}).items():
+            print("NOTE beyond-property (growth specification, not part of %s): %s (sig=%s, %d occurrence(s))" % (self.pid, v["what"], s, v["count"]))
         ev = {
             "property_id": self.pid, "tier": self.tier, "seed": self.seed, "level": level,
             "coverage": self.cov, "assumptions": self.assumptions, "wall_s": round(time.time() - self.t0, 2),
